@@ -15,6 +15,7 @@ Rule ids raised (Malformed.rule)
   lbs-unsupported           logical block size is not 2048 (only 2048 is supported)
   extent-out-of-image dir-length-not-multiple dr-length-inconsistent dir-padding-nonzero
   dr-crosses-sector dr-outside-dir dot-wrong dotdot-wrong dir-not-sorted dir-cycle dir-too-deep
+  dir-too-large             (work guard: directories claim > 4x the image size)
   ptable-LM-differ ptable-size-mismatch ptable-order ptable-parent-wrong ptable-extent-wrong
   ptable-missing-dir ptable-extra-dir
   beyond-volume-size joliet-escape
@@ -54,7 +55,55 @@ Decisions where the task text and the standards leave room
 
 Observed on pycdlib images
 --------------------------
-(filled in from the self test, see reader_selftest.KNOWN)
+Each item was seen on unmodified pycdlib output and is expected by reader_selftest (KNOWN / the
+dedicated cases); `iso` is a fresh pycdlib.PyCdlib(), F(n) = n one-byte files added with add_fp.
+
+* [dotdot-wrong]  '..' of a directory created inside a directory that already spans more than one
+  sector keeps data length 2048 instead of the parent's data length (ECMA-119 6.8.2.2, 9.1.4).
+  Repro: iso.new(); add_directory('/A'); F(60) into /A; add_directory('/A/B')  ->  /A/B/'..'
+  says (extent of A, 2048), /A is 4096 bytes.  (Directories that exist while the parent grows are
+  updated correctly.)
+* [dot-wrong] on the enhanced tree: the root record inside the ISO 9660:1999 enhanced descriptor
+  keeps data length 2048 when the root directory grows beyond one sector (its extent is updated).
+  Repro: iso.new(interchange_level=4); F(60) into /  ->  PVD root record (24, 4096), enhanced VD
+  root record (24, 2048).  With check=False the reader goes on with the longer length.
+* [dir-not-sorted]  records are ordered by plain byte order of the whole identifier, so ';'
+  (0x3B) takes part: 'A.B1;1' is recorded before 'A.B;1' although ECMA-119 9.3 pads 'A.B' with
+  spaces first.  Repro: iso.new(interchange_level=3); add_fp('/A.B;1'); add_fp('/A.B1;1').
+  (Same in Joliet for names 'a.b;1' / 'a.b1'.)
+* [gpt-crc]  add_isohybrid(efi=True) / (mac=True): PartitionEntryArrayCRC32 of both GPT headers is
+  computed over the 2 (3) used entries only, UEFI 5.3.2 demands NumberOfPartitionEntries (128) *
+  SizeOfPartitionEntry (128) bytes.  ('parts_crc_used_only_ok' is True on these images.)
+* backup GPT written over the end of the volume: the image is padded to a multiple of
+  heads*sectors*512 = 1 MiB only, and the 16896 bytes of backup GPT (array + header) are placed
+  in the last bytes of the file.  When (space_size % 512) is 0 or > 503 they overwrite the tail of
+  the volume: file data is destroyed and, with UDF, the anchor at space_size-1 disappears
+  ([udf-anchor-missing]; overlaps() pairs 'gpt-backup-parts' with the victim).
+  Repro: iso.new(); add ISOLINUX.BIN (0x40 zero bytes + fb c0 78 70), EFIBOOT.IMG, a filler file
+  sized so that space_size becomes 512; add_eltorito(ISOLINUX.BIN, boot_load_size=4);
+  add_eltorito(EFIBOOT.IMG, efi=True); add_isohybrid(efi=True)  ->  the last 16896 bytes of the
+  filler file are overwritten.
+* Not rule violations, reported for information only:
+  - the UDF primary volume descriptors of the main and the reserve sequence carry different
+    volume set identifiers (two random draws): Image.udf['reserve_differences'] is [(1, 32, 48)];
+  - primary and backup GPT headers carry different disk GUIDs; APM entries have start/count 0;
+  - UDF symlinks use path component type 2 for a leading '/' (accepted, as is type 1);
+  - images made with udf='2.60' announce NSR02 in the recognition sequence and in the partition
+    contents, and UDF revision 1.02 (0x0102) in the integrity descriptor;
+  - check_rr_nlink(): on images with a relocated directory the link count of the root ('.', '..'
+    and the '..' of its children) counts RR_MOVED (physical view), and the CL placeholder of the
+    relocated directory has st_nlink 2 regardless of the subdirectories of the moved directory;
+  - the CL placeholder is a file record with extent 0 and data length 2048.
+
+Extras beyond the fixed API
+---------------------------
+Node.dot / Node.dotdot (Nodes of the '.' and '..' records of a directory, with .rr), Node.records
+(record offsets of a multi-extent file), Node.su_offset / su_len / system_use, Node.inline (UDF
+embedded data), Node.file_type / uid / gid / perms (UDF); RR.serial, sp_skip, er_id, er_info,
+rr_flags, pn; rr_root nodes also have .entry (the Node of the entry in the logical parent: the CL
+placeholder for a relocated directory) and .parent; Image.problems, Image.xa, Image.susp,
+path_tables['enhanced'], gpt[...]['parts_crc_used_only_ok'], udf['reserve_differences'].
+Segment keys are tuples of strings ('iso:/PATH', 'joliet:/path', 'udf:/path', ...), one per name.
 """
 import binascii
 import functools
@@ -64,6 +113,7 @@ import zlib
 SECTOR = 2048
 _MAX_DEPTH = 200          # directory nesting guard
 _MAX_VDS = 200            # volume descriptor set length guard
+_MAX_UDF_DIR = 1 << 26    # largest UDF directory / symlink body that is decoded
 _JOLIET_ESC = (b'%/@', b'%/C', b'%/E')
 _SUBSECTOR_KINDS = ('ce', 'pad', 'gpt-backup-parts', 'gpt-backup-header')
 
@@ -253,10 +303,11 @@ class _Reader(object):
         self.im = Image()
         self.im.size = len(img)
         self.segs = {}            # (offset, length, kind) -> [key, ...]
-        self.ce_owner = {}        # (block, offset, length) -> owner dr offset
+        self.ce_owner = {}        # (first byte, end byte) of a continuation area -> {owner dr offsets}
         self.vol_limit = None     # byte limit (space_size * lbs) for objects of the current volume
         self.vrs = []
         self.boot_records = []
+        self.dir_bytes = 0        # work guard: total directory bytes scanned
 
     # -- error plumbing -----------------------------------------------------------------------
     def fail(self, rule, detail, offset=None, fatal=False):
@@ -496,10 +547,8 @@ class _Reader(object):
                 self.fail('ce-out-of-volume', 'continuation area block %d lies outside the image' % block, n.dr_offset)
                 break
             rr.ce.append((block, offset, ln))
-            owner = self.ce_owner.setdefault((block, offset, ln), n.dr_offset)
-            if owner != n.dr_offset:
-                self.fail('ce-overlap', 'continuation area (%d,%d,%d) is used by the records at %d and %d'
-                          % (block, offset, ln, owner, n.dr_offset), base)
+            if ln:
+                self.ce_owner.setdefault((base, base + ln), set()).add(n.dr_offset)
             self.seg(base, ln, 'ce', '%s:%s' % (self.ns, n.path()))
             pending = self.walk_area(n, rr, state, base, ln, 'ce')
         if state['nm_seen']:
@@ -653,6 +702,19 @@ class _Reader(object):
             return b'/'
         return b'/'.join(parts)
 
+    def check_ce_overlap(self):
+        """No two continuation areas of the image may share a byte (the same area reached again
+        from the same record, e.g. through the enhanced descriptor, is one area)."""
+        areas = sorted(self.ce_owner.items())
+        for (span, owners) in areas:
+            if len(owners) > 1:
+                self.fail('ce-overlap', 'continuation area at bytes %d..%d is used by the records at %s'
+                          % (span[0], span[1], sorted(owners)), span[0])
+        for ((a0, a1), oa), ((b0, b1), ob) in zip(areas, areas[1:]):
+            if b0 < a1:
+                self.fail('ce-overlap', 'continuation areas %d..%d (record at %d) and %d..%d (record at %d) overlap'
+                          % (a0, a1, min(oa), b0, b1, min(ob)), b0)
+
     # -- directory tree -----------------------------------------------------------------------
     def read_tree(self, ns, vd):
         """Decode the whole directory hierarchy of one volume descriptor."""
@@ -671,9 +733,13 @@ class _Reader(object):
         self.susp_skip = 0
         if ns != 'joliet':
             roff = root.extents[0][0] * SECTOR
-            if roff + 34 <= len(self.img) and self.img[roff] >= 34:
-                dot = self.parse_record(roff, ns, min(255, len(self.img) - roff))
-                su = dot.system_use
+            su = b''
+            if roff + 34 <= len(self.img) and 34 <= self.img[roff] <= len(self.img) - roff:
+                try:
+                    su = self.parse_record(roff, ns, self.img[roff]).system_use
+                except Malformed:
+                    pass            # reported again, with context, by read_dir
+            if su:
                 if not self.im.xa and len(su) >= 14 and su[6:8] == b'XA' and su[9:14] == b'\x00' * 5:
                     self.im.xa = True
                 s = 14 if (self.im.xa and su[6:8] == b'XA') else 0
@@ -685,27 +751,9 @@ class _Reader(object):
         self.read_dir(ns, root, root, set(), 0)
         return root
 
-    def read_dir(self, ns, node, parent, visited, depth):
+    def split_dir(self, ns, node, off, length, where):
+        """Cut length bytes of directory data at off into directory records (ECMA-119 6.8.1)."""
         img = self.img
-        extent, length = node.extents[0]
-        off = extent * SECTOR
-        where = '%s:%s' % (ns, node.path())
-        if depth > _MAX_DEPTH:
-            self.fail('dir-too-deep', 'directory nesting deeper than %d at %s' % (_MAX_DEPTH, where), node.dr_offset)
-            return
-        if extent in visited:
-            self.fail('dir-cycle', 'directory extent %d reached twice (at %s)' % (extent, where), node.dr_offset)
-            return
-        visited.add(extent)
-        if length == 0 or length % SECTOR:
-            self.fail('dir-length-not-multiple', 'directory %s has data length %d' % (where, length), node.dr_offset)
-            if length == 0:
-                return
-        if off + length > len(img):
-            self.fail('extent-out-of-image', 'directory %s: extent %d length %d is outside the image' % (where, extent, length), node.dr_offset)
-            return
-        self.seg(off, length, 'dir', where)
-        # 1. split the directory data into records
         recs = []
         pos = 0
         while pos < length:
@@ -737,6 +785,42 @@ class _Reader(object):
                 r._path = where.split(':', 1)[1].rstrip('/') + ('/.' if r.name == b'\x00' else '/..')
             recs.append(r)
             pos += b
+        return recs
+
+    def read_dir(self, ns, node, parent, visited, depth):
+        img = self.img
+        extent, length = node.extents[0]
+        off = extent * SECTOR
+        where = '%s:%s' % (ns, node.path())
+        if depth > _MAX_DEPTH:
+            self.fail('dir-too-deep', 'directory nesting deeper than %d at %s' % (_MAX_DEPTH, where), node.dr_offset)
+            return
+        if extent in visited:
+            self.fail('dir-cycle', 'directory extent %d reached twice (at %s)' % (extent, where), node.dr_offset)
+            return
+        visited.add(extent)
+        if length == 0 or length % SECTOR:
+            self.fail('dir-length-not-multiple', 'directory %s has data length %d' % (where, length), node.dr_offset)
+            if length == 0:
+                return
+        if off + length > len(img):
+            self.fail('extent-out-of-image', 'directory %s: extent %d length %d is outside the image' % (where, extent, length), node.dr_offset)
+            return
+        # 1. split the directory data into records; '.' must describe this very directory
+        recs = self.split_dir(ns, node, off, length, where)
+        if not recs or recs[0].name != b'\x00' or recs[0].extents[0] != (extent, length):
+            self.fail('dot-wrong', "directory %s: first record is %r %r, expected '.' with extent (%d, %d)"
+                      % (where, recs[0].name if recs else None, recs[0].extents[0] if recs else None, extent, length), off)
+            # check=False only: if just the length differs, go on with the longer of the two claims
+            alt = recs[0].extents[0][1] if recs and recs[0].name == b'\x00' and recs[0].extents[0][0] == extent else 0
+            if alt > length and alt % SECTOR == 0 and off + alt <= len(img):
+                length = alt
+                recs = self.split_dir(ns, node, off, length, where)
+        self.dir_bytes += length
+        if self.dir_bytes > 4 * len(img) + (1 << 24):
+            self.fail('dir-too-large', 'the directories of the image claim more than four times the image size', node.dr_offset, fatal=True)
+        self.seg(off, length, 'dir', where)
+        node.used_extent = (extent, length)
         # 2. system use areas (XA, SUSP)
         for i, r in enumerate(recs):
             skip = self.parse_xa(r)
@@ -745,12 +829,9 @@ class _Reader(object):
                 if not is_root_dot:
                     skip = max(skip, self.susp_skip)
                 self.parse_susp(r, skip, is_root_dot)
-        # 3. '.' and '..'
-        if not recs or recs[0].name != b'\x00' or recs[0].extents[0] != (extent, length):
-            self.fail('dot-wrong', "directory %s: first record is %r %r, expected '.' with extent (%d, %d)"
-                      % (where, recs[0].name if recs else None, recs[0].extents[0] if recs else None, extent, length), off)
+        # 3. '..' must describe the parent directory
         pext = parent.extents[0]
-        if len(recs) < 2 or recs[1].name != b'\x01' or recs[1].extents[0] != pext:
+        if len(recs) < 2 or recs[1].name != b'\x01' or recs[1].extents[0] not in (pext, getattr(parent, 'used_extent', pext)):
             self.fail('dotdot-wrong', "directory %s: second record is %r %r, expected '..' with the parent's extent %r"
                       % (where, recs[1].name if len(recs) > 1 else None, recs[1].extents[0] if len(recs) > 1 else None, pext),
                       recs[1].dr_offset if len(recs) > 1 else off)
@@ -900,6 +981,8 @@ class _Reader(object):
             all_re = all(k.rr is not None and k.rr.re for k in kids)
             return all_re and (bool(kids) or d.name == b'RR_MOVED')
 
+        expanded = set()          # physical directories already placed in the logical tree
+
         def make(entry, phys, lparent, depth):
             n = RRNode()
             n.entry, n.iso, n.parent = entry, phys, lparent
@@ -909,7 +992,10 @@ class _Reader(object):
             n.extents, n.length = phys.extents, phys.length
             if rr is not None:
                 n.mode, n.nlink, n.symlink = rr.mode, rr.nlink, rr.symlink
-            if phys.is_dir and depth < _MAX_DEPTH:
+            if phys.is_dir and id(phys) in expanded:
+                self.fail('dir-cycle', 'directory %s appears twice in the logical Rock Ridge tree' % phys.path(), entry.dr_offset)
+            elif phys.is_dir and depth < _MAX_DEPTH:
+                expanded.add(id(phys))
                 for c in phys.children:
                     crr = c.rr
                     if crr is not None and crr.re:
@@ -1082,21 +1168,21 @@ class _Reader(object):
         return g
 
     # -- UDF ----------------------------------------------------------------------------------
-    def udf_tag(self, buf, pos, loc, what, abs_sector=None):
-        """Verify the 16-byte descriptor tag at buf[pos:]; returns (ident, crc_length)."""
+    def udf_tag(self, buf, pos, loc, what, abs_off):
+        """Verify the 16-byte descriptor tag at buf[pos:] (ECMA-167 3/7.2); loc is the expected tag
+        location, abs_off the byte offset of the tag in the image.  Returns (ident, crc_length)."""
         if pos < 0 or pos + 16 > len(buf):
-            raise Malformed('truncated', 'UDF tag of %s does not fit' % what, None)
-        ident, ver, csum, _res, serial, crc, crc_len, tagloc = struct.unpack_from('<HHBBHHHI', buf, pos)
-        base = pos if buf is self.img else None
+            raise Malformed('truncated', 'UDF tag of %s does not fit' % what, abs_off)
+        ident, _ver, csum, _res, _serial, crc, crc_len, tagloc = struct.unpack_from('<HHBBHHHI', buf, pos)
         if (sum(buf[pos:pos + 16]) - buf[pos + 4]) & 0xff != csum:
-            self.fail('udf-tag-checksum', '%s: tag checksum 0x%02x is wrong' % (what, csum), base)
+            self.fail('udf-tag-checksum', '%s: tag checksum 0x%02x is wrong' % (what, csum), abs_off)
         if pos + 16 + crc_len > len(buf):
-            self.fail('udf-tag-crc', '%s: CRC length %d runs past the data' % (what, crc_len), base)
+            self.fail('udf-tag-crc', '%s: CRC length %d runs past the data' % (what, crc_len), abs_off)
         elif binascii.crc_hqx(bytes(buf[pos + 16:pos + 16 + crc_len]), 0) != crc:
-            self.fail('udf-tag-crc', '%s: descriptor CRC 0x%04x is wrong' % (what, crc), base)
+            self.fail('udf-tag-crc', '%s: descriptor CRC 0x%04x is wrong' % (what, crc), abs_off)
         if tagloc != loc:
-            self.fail('udf-tag-location', '%s: tag location %d, the descriptor is at %d' % (what, tagloc, loc), base)
-        self.udf_tags.append((abs_sector if abs_sector is not None else loc, ident))
+            self.fail('udf-tag-location', '%s: tag location %d, the descriptor is at %d' % (what, tagloc, loc), abs_off)
+        self.udf_tags.append((abs_off // SECTOR if abs_off is not None else None, ident))
         return ident, crc_len
 
     def read_udf(self):
@@ -1114,7 +1200,7 @@ class _Reader(object):
         if not self.vrs and not looks_like_anchor(256):
             return None
         self.udf_tags = []
-        u = {'vrs': [(v[1], v[0]) for v in self.vrs], 'tags': self.udf_tags}
+        u = {'vrs': [(v[1], v[0]) for v in self.vrs], 'tags': self.udf_tags, 'integrity': None, 'reserve_differences': []}
         nsr = [i for i in idents if i in ('NSR02', 'NSR03')]
         if not idents or idents[0] != 'BEA01' or idents[-1] != 'TEA01' or len(nsr) != 1 \
                 or any(v[2] != 0 or v[3] != 1 for v in self.vrs):
@@ -1126,7 +1212,7 @@ class _Reader(object):
         for s in sorted(set([256, nsect - 1, nsect - 257, len(img) // SECTOR - 1])):
             if not looks_like_anchor(s):
                 continue
-            self.udf_tag(img, s * SECTOR, s, 'anchor at sector %d' % s)
+            self.udf_tag(img, s * SECTOR, s, 'anchor at sector %d' % s, s * SECTOR)
             u['anchors'].append(s)
             self.seg(s * SECTOR, SECTOR, 'udf-anchor', 'sector %d' % s, volume=False)
             a = {'main': (self.le32(s * SECTOR + 20), self.le32(s * SECTOR + 16)),
@@ -1170,9 +1256,9 @@ class _Reader(object):
         iloc, ilen = lvd['integrity_extent']
         if ilen:
             o = iloc * SECTOR
-            self.need(o, 512, 'logical volume integrity descriptor')
+            self.need(o, SECTOR, 'logical volume integrity descriptor')
             self.seg(o, ilen, 'udf-lvid', 'integrity sequence')
-            ident, _ = self.udf_tag(img, o, iloc, 'logical volume integrity descriptor')
+            ident, _ = self.udf_tag(img, o, iloc, 'logical volume integrity descriptor', o)
             if ident != 9:
                 self.fail('udf-tag-ident', 'integrity extent holds tag %d, expected 9' % ident, o)
             else:
@@ -1190,12 +1276,12 @@ class _Reader(object):
                          integ['max_udf_write']) = struct.unpack_from('<IIHHH', img, t + 32)
                 u['integrity'] = integ
             if ilen >= 2 * SECTOR and self.le16(o + SECTOR) == 8:
-                self.udf_tag(img, o + SECTOR, iloc + 1, 'integrity sequence terminator')
+                self.udf_tag(img, o + SECTOR, iloc + 1, 'integrity sequence terminator', o + SECTOR)
         # file set descriptor
         flen, flbn, fref = lvd['fsd_location']
         resolve(fref, 'file set descriptor address')
         fo = self.part_off(flbn, 512, 'file set descriptor')
-        ident, _ = self.udf_tag(img, fo, flbn, 'file set descriptor', fo // SECTOR)
+        ident, _ = self.udf_tag(img, fo, flbn, 'file set descriptor', fo)
         if ident != 256:
             self.fail('udf-tag-ident', 'file set descriptor has tag %d, expected 256' % ident, fo, fatal=True)
         self.seg(fo, SECTOR, 'udf-fsd', 'file set descriptor')
@@ -1205,7 +1291,7 @@ class _Reader(object):
         u['fsd'] = fsd
         if flbn + 1 < part['length'] and fo + SECTOR + 16 <= len(img) and self.le16(fo + SECTOR) == 8 \
                 and (flen >= 2 * SECTOR or _tag_checksum_ok(img, fo + SECTOR)):
-            self.udf_tag(img, fo + SECTOR, flbn + 1, 'file set terminator', fo // SECTOR + 1)
+            self.udf_tag(img, fo + SECTOR, flbn + 1, 'file set terminator', fo + SECTOR)
             self.seg(fo + SECTOR, SECTOR, 'udf-fsd', 'file set terminator')
         resolve(fsd['root_icb'][2], 'root directory ICB')
         root = Node()
@@ -1241,7 +1327,7 @@ class _Reader(object):
             o = s * SECTOR
             if self.le16(o) == 0 and not any(img[o:o + 16]):
                 break
-            ident, _ = self.udf_tag(img, o, s, '%s VDS descriptor at sector %d' % (which, s))
+            ident, _ = self.udf_tag(img, o, s, '%s VDS descriptor at sector %d' % (which, s), o)
             seen.add(ident)
             out['seq'].append((ident, s, img[o + 16:o + 512]))
             if ident == 1:
@@ -1307,7 +1393,7 @@ class _Reader(object):
                 if len(guard) > 64:
                     self.fail('udf-ad-unsupported', '%s: too many chained allocation extents' % what, None, fatal=True)
                 o = self.part_off(lbn, 24, what + ' allocation extent')
-                ident, _ = self.udf_tag(self.img, o, lbn, what + ' allocation extent', o // SECTOR)
+                ident, _ = self.udf_tag(self.img, o, lbn, what + ' allocation extent', o)
                 if ident != 258:
                     self.fail('udf-tag-ident', '%s: allocation extent has tag %d' % (what, ident), o, fatal=True)
                 self.seg(o, SECTOR, 'udf-aed', what)
@@ -1328,7 +1414,7 @@ class _Reader(object):
         o = self.part_off(lbn, 176, what + ' file entry')
         sector = o // SECTOR
         fe = img[o:o + SECTOR]
-        ident, _ = self.udf_tag(fe, 0, lbn, what + ' file entry', sector)
+        ident, _ = self.udf_tag(fe, 0, lbn, what + ' file entry', o)
         if ident not in (261, 266):
             self.fail('udf-tag-ident', '%s: ICB holds tag %d, expected a (extended) file entry' % (what, ident), o, fatal=True)
         self.seg(o, SECTOR, 'udf-fe', what)
@@ -1367,6 +1453,9 @@ class _Reader(object):
         for (s, n) in node.extents:
             if s is not None:
                 self.seg(s * SECTOR, n, data_kind, what)
+        if node.file_type in (4, 12) and (info_len > _MAX_UDF_DIR or any(s is None for (s, _) in node.extents)):
+            self.fail('udf-ad-unsupported', '%s: directory / symlink data of %d bytes (sparse or larger than %d) is not decoded'
+                      % (what, info_len, _MAX_UDF_DIR), o, fatal=True)
         if node.file_type == 12:
             node.symlink = self.udf_symlink(_file_bytes(img, node), what)
         if not is_dir:
@@ -1398,17 +1487,17 @@ class _Reader(object):
                 self.fail('udf-fid-area', '%s: %d stray bytes after the last FID' % (what, len(data) - p), where(p)[0])
                 break
             absoff, blk = where(p)
-            ident, _ = self.udf_tag(data, p, blk, '%s FID at %d' % (what, p), None if absoff is None else absoff // SECTOR)
-            if ident != 257:
-                self.fail('udf-fid-area', '%s: descriptor at %d of the directory data has tag %d, expected 257' % (what, p, ident), absoff)
-                break
             chars, l_fi = data[p + 18], data[p + 19]
-            icb_len, icb_lbn, icb_ref = struct.unpack_from('<IIH', data, p + 20)
+            _icb_len, icb_lbn, icb_ref = struct.unpack_from('<IIH', data, p + 20)
             l_iu = struct.unpack_from('<H', data, p + 36)[0]
             flen = (38 + l_iu + l_fi + 3) & ~3
-            if p + flen > len(data):
+            if struct.unpack_from('<H', data, p)[0] == 257 and p + flen > len(data):
                 self.fail('udf-fid-area', '%s: FID at %d (length %d) overruns the directory data of %d bytes'
                           % (what, p, flen, len(data)), absoff)
+                break
+            ident, _ = self.udf_tag(data, p, blk, '%s FID at %d' % (what, p), absoff)
+            if ident != 257:
+                self.fail('udf-fid-area', '%s: descriptor at %d of the directory data has tag %d, expected 257' % (what, p, ident), absoff)
                 break
             if first and not chars & 8:
                 self.fail('udf-fid-parent', '%s: the first FID is not the parent entry' % what, absoff)
@@ -1487,11 +1576,19 @@ class _Reader(object):
             im.rr_version = keep
             if im.enhanced_root is not None:
                 self.phase(self.check_path_tables, 'enhanced', im.enhanced, im.enhanced_root)
+        self.phase(self.check_ce_overlap)
         self.vol_limit = min(pvd['space_size'] * SECTOR, len(img))
         im.eltorito = self.phase(self.read_eltorito)
         im.hybrid = self.phase(self.read_hybrid)
         im.udf = self.phase(self.read_udf)
         self.finish_segments()
+        seen = set()
+        uniq = []
+        for m in im.problems:
+            if (m.rule, m.detail, m.offset) not in seen:
+                seen.add((m.rule, m.detail, m.offset))
+                uniq.append(m)
+        im.problems = uniq
         return im
 
     def finish_segments(self):
